@@ -297,7 +297,7 @@ pub fn cases(tier: Tier) -> Vec<Case> {
         vec![0, 1, 2, 1199, 1200, 1201, 2399, 2400, 2401, 3601, 16384],
         vec![0, 1, 2, 63, 64, 1199, 1200, 1201, 2399, 2400, 2401, 3599, 3600, 3601, 16383, 16384, 25201],
     );
-    let perm_limit = tier.pick(4, 5);
+    let perm_limit = if crate::report::deep() { 6 } else { tier.pick(4, 5) };
     // (a) one message alone, every kind, both directions
     for dir in 0..2 {
         for ch in 0..3u8 {
@@ -451,6 +451,7 @@ fn orders_full_with_one_dup(n: usize) -> Vec<Vec<usize>> {
 pub fn run(tier: Tier) -> i32 {
     let mut rep = Report::new("C03", tier);
     // the thorough bounds of this property take seconds: the quick tier runs them too
+    crate::report::note_tier(tier);
     let tier = { let _ = tier; Tier::Thorough };
     rep.rule("sweep: every (message set, delivery sequence) case: single messages of every boundary length on every channel kind and direction; every ordered pair from {0,1,1199,1200,1201,2401}; two sliced messages with all 24 / 720 slice interleavings; one message per channel with every delivery permutation. Delivery sequences: all permutations of the real packet batch when small (else fifo/reverse/rotations/even-odd), each plain, with every single duplicate (adjacent and late) and every single loss; reliable channels then get a fault-free tail. Oracle: every obtained message byte-identical to one submitted on the same channel and direction; unreliable copies <= deliveries of the carrying packets (min over slices); reliable exactly once after the tail");
     rep.assume("message contents are the harness pattern f(direction, channel, index, byte offset, slice number), which makes misplaced slices and cross-delivery visible in the bytes");
@@ -701,6 +702,7 @@ pub fn replay(j: &J) -> i32 {
         Some("thorough") => Tier::Thorough,
         _ => Tier::Quick,
     };
+    crate::report::note_tier(tier);
     let tier = { let _ = tier; Tier::Thorough };
     let cs = cases(tier);
     let i = j.get("case_index").and_then(|x| x.as_i()).unwrap_or(0) as usize;
